@@ -293,3 +293,124 @@ theorem total_start (adds : List Add) (quitAt : Nat) : (total (start adds quitAt
   simp [total]
 
 end Sdc.UdpSendLoop
+
+/-! ## the loop ends: once `schedule_stop` was called, after finitely many iterations everything is out -/
+namespace Sdc.UdpSendLoop
+
+/-- nothing is scheduled after `T`, and the stop is requested by then -/
+structure Bounded (T : Nat) (s : St) : Prop where
+  quitB : s.quitAt ≤ T
+  qB : ∀ e ∈ s.q, e.sendTime ≤ T
+  fB : ∀ e ∈ future s.quitAt s.adds, e.sendTime ≤ T
+
+/-- entries not yet transmitted -/
+def remaining (s : St) : Nat := s.q.length + (future s.quitAt s.adds).length
+
+def mu (T : Nat) (s : St) : Nat := remaining s + (T + 1 - s.now) + (if s.quit then 0 else 1)
+
+theorem remaining_sleep (dt : Nat) (s : St) : remaining (sleep dt s) = remaining s := by
+  unfold remaining
+  simp only [sleep]
+  have h1 := (perm_enqueue s.q ((accepted s.quitAt (s.now + dt) s.adds).flatMap entriesOf)).length_eq
+  have h2 := (future_split s.quitAt (s.now + dt) s.adds).length_eq
+  simp only [List.length_append] at h1 h2
+  omega
+
+theorem mem_future_of_accepted {quitAt t : Nat} {adds : List Add} {e : Entry}
+    (h : e ∈ (accepted quitAt t adds).flatMap entriesOf) : e ∈ future quitAt adds :=
+  ((future_split quitAt t adds).mem_iff).2 (List.mem_append_left _ h)
+
+theorem mem_future_of_rest {quitAt t : Nat} {adds : List Add} {e : Entry}
+    (h : e ∈ future quitAt (adds.filter (fun a => !(a.at_ ≤ t)))) : e ∈ future quitAt adds :=
+  ((future_split quitAt t adds).mem_iff).2 (List.mem_append_right _ h)
+
+theorem bounded_sleep {T dt : Nat} {s : St} (h : Bounded T s) : Bounded T (sleep dt s) := by
+  refine ⟨h.quitB, ?_, ?_⟩
+  · intro e he
+    simp only [sleep] at he
+    rcases mem_enqueue.1 he with he | he
+    · exact h.qB e he
+    · exact h.fB e (mem_future_of_accepted he)
+  · intro e he
+    simp only [sleep] at he
+    exact h.fB e (mem_future_of_rest he)
+
+theorem step_bounded {c : Cfg} {T : Nat} {s s' : St} (h : Bounded T s) (hs : step c s = some s') : Bounded T s' := by
+  unfold step at hs
+  split at hs
+  · split at hs
+    · cases hs
+    · cases hs; exact bounded_sleep h
+  · rename_i e rest hq
+    split at hs
+    · cases hs
+      exact ⟨h.quitB, fun x hx => h.qB x (by rw [hq]; exact List.mem_cons_of_mem _ hx), h.fB⟩
+    · cases hs; exact bounded_sleep h
+
+theorem step_mu {c : Cfg} (hb : 0 < c.busy) (hc : c.busy ≤ c.idle) {T : Nat} {s s' : St} (hB : Bounded T s)
+    (hs : step c s = some s') : mu T s' < mu T s := by
+  unfold step at hs
+  split at hs
+  · rename_i hq
+    split at hs
+    · cases hs
+    · rename_i hquit
+      cases hs
+      unfold mu
+      rw [remaining_sleep]
+      have hquit' : s.quit = false := by simpa using hquit
+      simp only [sleep, hquit', Bool.false_or, decide_eq_true_eq]
+      have := hB.quitB
+      by_cases hn : s.now ≤ T
+      · split <;> simp <;> omega
+      · have : s.quitAt ≤ s.now + c.idle := by omega
+        simp [this]; omega
+  · rename_i e rest hq
+    split at hs
+    · cases hs
+      unfold mu remaining
+      simp only [hq, List.length_cons]
+      omega
+    · rename_i hdue
+      cases hs
+      unfold mu
+      rw [remaining_sleep]
+      have he := hB.qB e (by rw [hq]; exact List.mem_cons_self)
+      simp only [sleep]
+      by_cases hq' : s.quit = true <;> by_cases hd : s.quitAt ≤ s.now + c.busy <;> simp [hq', hd] <;> omega
+
+/-- with a positive busy sleep the loop ends after at most `mu` iterations -/
+theorem run_terminates {c : Cfg} (hb : 0 < c.busy) (hc : c.busy ≤ c.idle) {T : Nat} (n : Nat) {s : St}
+    (hB : Bounded T s) (hn : mu T s < n) : (run c n s).2 = true := by
+  induction n generalizing s with
+  | zero => omega
+  | succ n ih =>
+    simp only [run]
+    split
+    · rfl
+    · rename_i s' hs
+      have := step_mu hb hc hB hs
+      exact ih (step_bounded hB hs) (by omega)
+
+/-- a bound for everything the calls put on the queue -/
+def lastTime (quitAt : Nat) (adds : List Add) : Nat := ((future quitAt adds).map (·.sendTime)).foldl max quitAt
+
+theorem le_foldl_max (l : List Nat) (a : Nat) : a ≤ l.foldl max a ∧ ∀ x ∈ l, x ≤ l.foldl max a := by
+  induction l generalizing a with
+  | nil => simp
+  | cons y ys ih =>
+    simp only [List.foldl_cons]
+    have := ih (max a y)
+    refine ⟨by omega, ?_⟩
+    intro x hx
+    rcases List.mem_cons.1 hx with rfl | hx
+    · omega
+    · exact this.2 x hx
+
+theorem start_bounded (adds : List Add) (quitAt : Nat) : Bounded (lastTime quitAt adds) (start adds quitAt) := by
+  have hl := le_foldl_max ((future quitAt adds).map (·.sendTime)) quitAt
+  refine bounded_sleep ⟨hl.1, by simp, ?_⟩
+  intro e he
+  exact hl.2 _ (List.mem_map_of_mem he)
+
+end Sdc.UdpSendLoop
